@@ -168,8 +168,17 @@ def replay(path):
         return 1
     from vlib.session import brief
     print("input:", C.show_bytes(case.get("in", case.get("stream", []))) if "msgs" not in case else [C.show_bytes(m) for m in case["msgs"]])
-    for e in recs[0]["obs"] if isinstance(recs[0]["obs"], list) else [recs[0]["obs"]]:
-        print("  ", brief(e))
+    o = recs[0]["obs"]
+    if isinstance(o, list) and (not o or isinstance(o[0], dict)):
+        for e in o[:60]:
+            print("   ", str(brief(e))[:200])
+    else:
+        groups = o.items() if isinstance(o, dict) else [("v", o)]
+        for k, vs in groups:
+            vs = vs if vs and isinstance(vs[0], list) else [vs]
+            for i, v in enumerate(vs[:12]):
+                sem = [brief(e) for e in v if e.get("e") not in ("read",)]
+                print("   %s[%d]: %s" % (k, i, str(sem)[:300]))
     module = rep.get("trace_module", "TraceScpi")
     rej = s.validate(recs, "replay", module=module)
     C.cleanup(s.wd)
@@ -788,3 +797,277 @@ def c05(tier):
 
 
 CHECKS["C05"] = c05
+
+
+# ------------------------------------------------------------------ C01 / C14
+TREE_NAMES = ["Ab", "AB", "aB", "ABcd", "A1b", "A_b", "Bc", "Cd"]
+
+
+def tree_pool(tier):
+    """declaration strings TLC draws sets from"""
+    pool = []
+    n1 = TREE_NAMES
+    n2 = ["Ab", "AB", "ABcd", "Bc"] if tier == "quick" else ["Ab", "AB", "aB", "ABcd", "Bc", "A1b"]
+    for a in n1:
+        pool += [a, a + "?"]
+    for c in ["*Ab", "*CD"]:
+        pool += [c, c + "?"]
+    for a in n2:
+        for c in n2:
+            for fmt in ("%s:%s", "[%s]:%s", "%s:[%s]"):
+                pool += [fmt % (a, c), fmt % (a, c) + "?"]
+    for (a, c, d) in [("Cd", "Ab", "AB"), ("Cd", "Ab", "Bc"), ("Ab", "Bc", "Cd")]:
+        for fmt in ("%s:[%s]:[%s]", "%s:%s:%s", "[%s]:%s:[%s]", "%s:[%s]:%s"):
+            pool += [fmt % (a, c, d), fmt % (a, c, d) + "?"]
+    seen, out = set(), []
+    for p in pool:
+        if p not in seen:
+            seen.add(p)
+            out.append(p)
+    return out
+
+
+def pool_decl_tla(cmd):
+    return T.decl_record({"cmd": cmd, "args": [], "beh": {"k": "ok"}})
+
+
+def tree_params(pool, maxdecls, mode, emit_sets, dedup=True, maxattrs=1):
+    es = "{%s}" % ", ".join("<< %s, [std |-> %s, err |-> %s] >>" % (
+        T.tseq(str(i) for i in ch), "TRUE" if st else "FALSE", "TRUE" if er else "FALSE") for (ch, st, er) in emit_sets)
+    return ("MCScpiTreeParams", [
+        ("Pool", "<<\n  " + ",\n  ".join(pool_decl_tla(c) for c in pool) + " >>"),
+        ("MaxDecls", str(maxdecls)), ("MaxDeclsWithAttrs", str(maxattrs)), ("Mode", '"%s"' % mode),
+        ("EmitSets", es), ("Dedup", "TRUE" if dedup else "FALSE")])
+
+
+def set_desc(name, pool, chosen, std, err):
+    attrs = (["StandardCommands"] if std else []) + (["ErrorCommands"] if err else [])
+    cmds = []
+    for k, i in enumerate(chosen):
+        cmd = pool[i - 1]
+        beh = {"k": "const", "ty": "u8", "v": (k + 1) % 200} if cmd.endswith("?") else {"k": "ok"}
+        cmds.append({"cmd": cmd, "args": [], "beh": beh, "async": k % 2 == 0})
+    return {"name": name, "attrs": attrs, "K": 4, "caps": [], "ns": [64], "cmds": cmds}
+
+
+def cargo_json(pkg, cwd):
+    env = dict(os.environ, CARGO_NET_OFFLINE="true")
+    r = subprocess.run(["cargo", "build", "--release", "--offline", "-p", pkg, "--message-format=json"], cwd=cwd, env=env,
+                       stdout=subprocess.PIPE, stderr=subprocess.PIPE, text=True)
+    msgs = []
+    for line in r.stdout.splitlines():
+        try:
+            m = json.loads(line)
+        except ValueError:
+            continue
+        if m.get("reason") == "compiler-message" and m["message"].get("level") == "error":
+            spans = m["message"].get("spans") or []
+            lines = [sp["line_start"] for sp in spans if sp.get("is_primary")] or [sp["line_start"] for sp in spans]
+            msgs.append({"text": m["message"]["message"], "lines": lines, "pkg": m.get("package_id", ""),
+                         "file": (spans[0]["file_name"] if spans else "")})
+    return r.returncode, msgs, r.stderr[-2000:]
+
+
+def module_ranges(src_modules):
+    """[(name, text)] -> source text, {name: (first line, last line)}"""
+    out, ranges, line = "", {}, 1
+    for name, text in src_modules:
+        n = text.count("\n")
+        ranges[name] = (line, line + n - 1)
+        out += text
+        line += n
+    return out, ranges
+
+
+def owner(ranges, ln):
+    for k, (a, z) in ranges.items():
+        if a <= ln <= z:
+            return k
+    return None
+
+
+def header_variants(rng, path, q, all_cases):
+    hdr = b":".join(bytes(m) for m in path) + (b"?" if q else b"")
+    forms = [hdr, hdr.lower(), bytes(c ^ 0x20 if (chr(c).isalpha() and i % 2) else c for i, c in enumerate(hdr))]
+    return forms if all_cases else [rng.choice(forms)]
+
+
+def tree_check(prop, tier):
+    from vlib import geniface as G
+    s = Session(prop, tier)
+    C.build_harness()
+    pool = tree_pool(tier)
+    # phase 1: explore every set, classify
+    sets = []
+    md = 2
+    s.model("MCScpiTree", tree_params(pool, md, "explore", []), on_line=sets.append, workers=10, timeout=3000,
+            label="MCScpiTree explore(|Pool|=%d, decls<=%d)" % (len(pool), md), heap="12g")
+    if tier == "thorough":
+        sets3 = []
+        s.model("MCScpiTree", tree_params(pool[:40], 3, "explore", []), on_line=sets3.append, workers=14, timeout=3000,
+                label="MCScpiTree explore(|Pool|=40, decls<=3)", heap="16g")
+        sets += [x for x in sets3 if len(x["chosen"]) == 3]
+    # negative control: without de-duplication a declaration collides with itself ("[A]:[A]")
+    s.model("MCScpiTree", tree_params(["Cd:[Ab]:[AB]", "Cd"], 2, "explore", [], dedup=False), expect_violation="BuildIffUnambiguous",
+            label="MCScpiTree legacy: own expansions not de-duplicated")
+    amb = [x for x in sets if x["ambiguous"]]
+    una = [x for x in sets if not x["ambiguous"] and x["chosen"]]
+    s.cov["sets_classified"] = len(sets)
+    s.cov["ambiguous_sets"] = len(amb)
+    s.rng.shuffle(amb)
+    s.rng.shuffle(una)
+    key = lambda x: (tuple(x["chosen"]), x["std"], x["err"])   # noqa: E731
+    unakeys = {key(x) for x in una}
+    K_amb = 40 if tier == "quick" else 400
+    K_ctl = 90 if tier == "quick" else 1200
+    amb_s = amb[:K_amb]
+    # collision-free twins: flip the kind of the last declaration
+    idx = {c: i + 1 for i, c in enumerate(pool)}
+    twins = []
+    for x in amb_s:
+        last = pool[x["chosen"][-1] - 1]
+        flipped = last[:-1] if last.endswith("?") else last + "?"
+        ch = sorted(x["chosen"][:-1] + [idx[flipped]]) if flipped in idx else None
+        if ch and (tuple(ch), x["std"], x["err"]) in unakeys and len(set(ch)) == len(ch):
+            twins.append({"chosen": ch, "std": x["std"], "err": x["err"]})
+    # always include singles with every attribute combination and the self-overlapping declarations
+    musts = [x for x in una if len(x["chosen"]) == 1 and ("[" in pool[x["chosen"][0] - 1] or x["std"] or x["err"])]
+    ctl, seen = [], set()
+    for x in twins + musts[: K_ctl // 2] + una:
+        if key(x) not in seen and len(ctl) < K_ctl + len(twins):
+            seen.add(key(x))
+            ctl.append(x)
+    # phase 2: test headers of the control sets
+    emitted = []
+    s.model("MCScpiTree", tree_params(pool, md if tier == "quick" else 3, "emit", [(x["chosen"], x["std"], x["err"]) for x in ctl]),
+            on_line=emitted.append, workers=10, timeout=3000, label="MCScpiTree emit(%d control sets)" % len(ctl), heap="12g")
+    # generate: control crate (must build) and ambiguous crate (every module must fail in the macro)
+    descs = []
+    for k, x in enumerate(emitted):
+        x["name"] = "t%04d" % k
+        descs.append(set_desc(x["name"], pool, x["chosen"], x["std"], x["err"]))
+    gen = os.path.join(C.HARNESS, "treegen", "src", "gen")
+    os.makedirs(gen, exist_ok=True)
+    mods = [(d["name"], G.iface_module(d)) for d in descs]
+    src, ranges = module_ranges([("_hdr", "// GENERATED\n")] + mods + [("_reg", G.registry(descs))])
+    with open(os.path.join(gen, "mod.rs"), "w") as f:
+        f.write(src)
+    rc, msgs, err = cargo_json("treegen", C.HARNESS)
+    built = rc == 0
+    if not built:
+        bad = {}
+        for m in msgs:
+            if m["file"].endswith("gen/mod.rs"):
+                for ln in m["lines"]:
+                    o = owner(ranges, ln)
+                    if o and o.startswith("t"):
+                        bad.setdefault(o, m["text"])
+        if not bad:
+            raise C.ToolError("generated tree crate does not build:\n" + "\n".join(m["text"] for m in msgs[:5]) + err)
+        for name, text in sorted(bad.items())[:8]:
+            d = next(d for d in descs if d["name"] == name)
+            p = C.write_replay("C14", "nobuild-" + name, {"why": "a declaration set without a collision does not compile: " + text,
+                                                           "decls": [c["cmd"] for c in d["cmds"]], "attrs": d["attrs"], "kind": "compile"})
+            if prop == "C14":
+                s.violations.append(("collision-free set %s rejected by the macro: %s" % ([c["cmd"] for c in d["cmds"]], text), p))
+            else:
+                s.notes.append("set %s does not compile (reported by C14): %s" % ([c["cmd"] for c in d["cmds"]], text))
+        # drop the failing modules and rebuild so that the remaining sets are still exercised
+        keep = [d for d in descs if d["name"] not in bad]
+        mods = [(d["name"], G.iface_module(d)) for d in keep]
+        src, ranges = module_ranges([("_hdr", "// GENERATED\n")] + mods + [("_reg", G.registry(keep))])
+        with open(os.path.join(gen, "mod.rs"), "w") as f:
+            f.write(src)
+        rc, msgs, err = cargo_json("treegen", C.HARNESS)
+        if rc != 0:
+            raise C.ToolError("generated tree crate does not build after removing failing sets:\n" + err)
+        descs = keep
+    s.cov["control_sets_compiled"] = len(descs)
+    names = {d["name"] for d in descs}
+    if prop == "C14":
+        amods = []
+        for k, x in enumerate(amb_s):
+            d = set_desc("a%04d" % k, pool, x["chosen"], x["std"], x["err"])
+            amods.append((d["name"], G.plain_module(d), d))
+        src, aranges = module_ranges([("_hdr", "// GENERATED: every module must be rejected by the macro\n")] + [(n, t) for n, t, _ in amods])
+        with open(os.path.join(C.HARNESS, "ambig", "src", "lib.rs"), "w") as f:
+            f.write(src)
+        rc, msgs, err = cargo_json("ambig", C.HARNESS)
+        failed = {}
+        other = []
+        for m in msgs:
+            o = None
+            for ln in m["lines"]:
+                o = o or owner(aranges, ln)
+            if o and o.startswith("a"):
+                failed.setdefault(o, []).append(m["text"])
+            else:
+                other.append(m["text"])
+        if other and not failed:
+            raise C.ToolError("ambiguous crate failed for another reason: %s %s" % (other[:3], err))
+        for n, t, d in amods:
+            if n not in failed:
+                p = C.write_replay("C14", "shadow-" + n, {"why": "two handlers share a spelling of the same kind, yet the set compiles",
+                                                          "decls": [c["cmd"] for c in d["cmds"]], "attrs": d["attrs"], "kind": "compile"})
+                s.violations.append(("ambiguous set %s was accepted by the macro (one handler is shadowed)" % [c["cmd"] for c in d["cmds"]], p))
+        s.cov["ambiguous_sets_rejected_by_macro"] = len(failed)
+        s.cov["twins_compiled"] = len([t for t in twins if True])
+        s.cov["evaluations"] += len(amods)
+        open(os.path.join(C.HARNESS, "ambig", "src", "lib.rs"), "w").write("")
+    # run every test header through the real macro-generated dispatchers
+    cases = []
+    for x in emitted:
+        if x["name"] not in names:
+            continue
+        tests = sorted(x["tests"])
+        s.rng.shuffle(tests)
+        decl_paths = set()
+        lim = 120 if tier == "quick" else 250
+        for p in tests[:lim]:
+            for q in (False, True):
+                for h in header_variants(s.rng, p, q, False):
+                    cases.append({"kind": "run", "iface": x["name"], "in": b(h + b"\n"), "w": {"k": "rec"}})
+    # all three case variants of every header of a few sets
+    for x in emitted[:10]:
+        if x["name"] in names:
+            for p in sorted(x["tests"])[:200]:
+                for q in (False, True):
+                    for h in header_variants(s.rng, p, q, True)[1:]:
+                        cases.append({"kind": "run", "iface": x["name"], "in": b(h + b"\n"), "w": {"k": "rec"}})
+    cpath = os.path.join(s.wd, "tree.cases.ndjson")
+    opath = os.path.join(s.wd, "tree.trace.ndjson")
+    C.write_ndjson(cpath, cases)
+    r = subprocess.run([os.path.join(C.HARNESS, "target", "release", "treeconf"), "exec", cpath, opath],
+                       stdout=subprocess.PIPE, stderr=subprocess.PIPE, text=True)
+    if r.returncode == 3:
+        s.violations.append(("run did not return", C.write_replay(prop, "hang", json.load(open(opath + ".hang")))))
+        return s.finish()
+    if r.returncode != 0:
+        raise C.ToolError("treeconf failed: " + r.stderr[-1500:])
+    recs = C.read_ndjson(opath)
+    s.cov["evaluations"] += len(recs)
+    with open(os.path.join(s.wd, "Ifaces.tla"), "w") as f:
+        f.write(T.ifaces_module(descs))
+    rejected = s.validate(recs, "tree", chunk=2500)
+    for rec in rejected:
+        d = next(d for d in descs if d["name"] == rec["iface"])
+        rec["decls"] = [c["cmd"] for c in d["cmds"]]
+        rec["attrs"] = d["attrs"]
+    if prop == "C01":
+        s.report_rejected(rejected, "a header selected a handler it does not spell, or a spelled header was refused, or the report was not exactly one -113")
+    elif rejected:
+        s.notes.append("%d header(s) dispatched wrongly on control sets (reported by C01)" % len(rejected))
+    s.sample([{"decls": [c["cmd"] for c in descs[0]["cmds"]], "attrs": descs[0]["attrs"],
+               "header": C.show_bytes(recs[0]["in"]), "obs": recs[0]["obs"][:2]}] if recs and descs else [])
+    if prop == "C14":
+        s.cov["samples"] += [{"ambiguous": [pool[i - 1] for i in x["chosen"]]} for x in amb_s[:3]]
+    s.cov["rule"] = ("declaration sets: every subset of <= 2 (thorough: 3 over a smaller pool) declarations from a pool with depth 1..3, optional parts "
+                     "anywhere, short=long / non-prefix-short / digit / underscore names, common commands, command+query on one node, x attribute "
+                     "combinations - all classified by TLC; a seeded sample of the collision-free ones (incl. every twin of a sampled ambiguous set) is "
+                     "compiled through the real macro and every spelled header and near miss of each is run; the sampled ambiguous sets must each be "
+                     "rejected by the macro; non-trivial = handler invoked or error reported; distinct by (set, header)")
+    return s.finish(exhaustive=False)
+
+
+CHECKS["C01"] = lambda tier: tree_check("C01", tier)
+CHECKS["C14"] = lambda tier: tree_check("C14", tier)
